@@ -683,7 +683,7 @@ impl Transformer {
     ) -> Result<()> {
         let mut new_svg_attrs = AttrMap::new();
         let mut orig_svg_attrs = HashMap::new();
-        if let OutputEvent::Start(orig_svg) = first_svg {
+        if let OutputEvent::Start(orig_svg) | OutputEvent::Empty(orig_svg) = first_svg {
             new_svg_attrs = orig_svg.attrs.clone();
             orig_svg_attrs = orig_svg.get_attrs();
         }
@@ -836,8 +836,10 @@ impl Transformer {
         }
 
         let mut has_svg_element = false;
+        let mut root_was_empty = false;
         if let (pre_svg, Some(first_svg), remain) = events.partition("svg") {
             pre_svg.write_to(writer)?;
+            root_was_empty = matches!(first_svg, OutputEvent::Empty(_));
             self.write_root_svg(first_svg, bbox, writer)?;
             events = remain;
             has_svg_element = true;
@@ -868,6 +870,11 @@ impl Transformer {
             self.write_auto_styles(&mut events, writer)?;
         }
 
+        if root_was_empty {
+            // `<svg/>` is opened like any other root (it may have received styles),
+            // so it has to be closed as well.
+            OutputList::from(vec![OutputEvent::End("svg".to_owned())]).write_to(writer)?;
+        }
         events.write_to(writer)
     }
 }
